@@ -153,7 +153,7 @@ def run_tlc(module, cfg_text, workdir, env=None, workers=16, timeout=3600, extra
     if coverage:
         cmd += ["-coverage", "1"]
     if simulate:
-        cmd += ["-simulate", simulate]
+        cmd += ["-simulate", simulate, "-depth", "16"]
     cmd += list(extra) + [os.path.join(SPEC, module + ".tla")]
     e = dict(os.environ)
     e.update(env or {})
@@ -176,6 +176,13 @@ def run_tlc(module, cfg_text, workdir, env=None, workers=16, timeout=3600, extra
         pass
     states = int(m.group(1).replace(",", "")) if m else 0
     distinct = int(m.group(2).replace(",", "")) if m else 0
+    if simulate:
+        ms = re.search(r"The number of states generated: (\d+)", out)
+        mt = None
+        for mt in re.finditer(r"(\d+) traces generated", out):
+            pass
+        states = int(ms.group(1)) if ms else 0
+        distinct = int(mt.group(1)) if mt else 0        # simulation: number of behaviours walked
     violated = re.findall(r"Error: (Invariant|Action property|Temporal properties?) (\S+)?.*", out)
     inv = re.findall(r"Invariant (\S+) is violated", out) + re.findall(r"Action property (\S+) is violated", out)
     if "Temporal properties were violated" in out:
